@@ -85,6 +85,15 @@ def call_sets(logic, modal, quantified, classical, vals, rng, n):
         sets.append([{'op': 'access', 'w': 0, 'w2': 1, 's': [], 'v': ''}, {'op': 'access', 'w': 0, 'w2': 2, 's': [], 'v': ''},
                      {'op': 'pred', 'w': 1, 'w2': -1, 's': P(F1, a), 'v': T},
                      {'op': 'pred', 'w': 2, 'w2': -1, 's': P(F1, b), 'v': vals[len(vals) // 2]}])
+        if classical:
+            # identity facts that differ between worlds: congruence is per world
+            sets.append([{'op': 'pred', 'w': 1, 'w2': -1, 's': P(F1, a), 'v': T},
+                         {'op': 'pred', 'w': 1, 'w2': -1, 's': P(IDENT, a, b), 'v': T},
+                         {'op': 'access', 'w': 0, 'w2': 1, 's': [], 'v': ''}])
+            sets.append([{'op': 'pred', 'w': 0, 'w2': -1, 's': P(IDENT, a, b), 'v': T},
+                         {'op': 'pred', 'w': 2, 'w2': -1, 's': P(F1, a), 'v': T},
+                         {'op': 'pred', 'w': 2, 'w2': -1, 's': P(H2, a, c), 'v': T},
+                         {'op': 'access', 'w': 0, 'w2': 2, 's': [], 'v': ''}])
     while len(sets) < n:
         k = rng.choice([2, 3, 3, 4, 4, 5])
         cs = []
